@@ -19,32 +19,6 @@ Definition s_b : str := [98].
 Definition i1 : str := [105; 49].
 Definition i2 : str := [105; 50].
 
-(* ---- F2: the copies made by a 1:n mapping forget who was applied to the original ---- *)
-Definition f2_it1 := mk_item i1 (TSuffix [95; 83]) g0 g0 g0.
-Definition f2_it2 := mk_item i2 (TFieldMap [(s_a ++ [95; 83], MMany [[97; 49]; [97; 50]])]) g0 g0 g0.
-Definition f2_w := world1 [] [leaf s_a [VStr [120]]].
-
-Theorem one_to_many_forgets :
-  exists it1 it2 w w1 w2 w2' T1 T2,
-    tracking_safe it1 = true /\ tracking_safe it2 = true /\
-    step it1 w = Ok (w1, true) /\ sp_step it1 [] w = Ok (w1, true, T1) /\
-    step it2 w1 = Ok (w2, true) /\ sp_step it2 T1 w1 = Ok (w2', true, T2) /\
-    r_dets (w_rule w2) <> r_dets (w_rule w2').
-Proof.
-  exists f2_it1, f2_it2, f2_w.
-  destruct (step f2_it1 f2_w) as [[w1 b1]| |] eqn:E1; try (vm_compute in E1; discriminate).
-  destruct (sp_step f2_it1 [] f2_w) as [[[w1' b1'] T1]| |] eqn:S1; try (vm_compute in S1; discriminate).
-  destruct (step f2_it2 w1) as [[w2 b2]| |] eqn:E2; try (vm_compute in E1; injection E1 as <- <-; vm_compute in E2; discriminate).
-  destruct (sp_step f2_it2 T1 w1) as [[[w2' b2'] T2]| |] eqn:S2;
-    try (vm_compute in E1; injection E1 as <- <-; vm_compute in S1; injection S1 as <- <- <-; vm_compute in S2; discriminate).
-  exists w1, w2, w2', T1, T2.
-  vm_compute in E1. injection E1 as <- <-.
-  vm_compute in S1. injection S1 as <- <- <-.
-  vm_compute in E2. injection E2 as <- <-.
-  vm_compute in S2. injection S2 as <- <- <-.
-  repeat split; try reflexivity. vm_compute. discriminate.
-Qed.
-
 (* ---- F1: "was this item applied to this field name" asked on a field-name transformation ---- *)
 Definition f1_it1 := mk_item i1 (TSuffix [95; 49]) g0 g0 g0.
 Definition f1_it2 := mk_item i2 (TSuffix [95; 50]) g0 g0
@@ -53,7 +27,7 @@ Definition f1_w := world1 [] [leaf s_b [VStr [120]]].
 
 Theorem field_history_lost :
   exists it1 it2 w w1 w2 w2' T1 T2,
-    no_one_to_many it1 = true /\ no_one_to_many it2 = true /\
+    has_fapplied (i_field it2) = true /\
     step it1 w = Ok (w1, true) /\ sp_step it1 [] w = Ok (w1, true, T1) /\
     step it2 w1 = Ok (w2, true) /\ sp_step it2 T1 w1 = Ok (w2', true, T2) /\
     r_dets (w_rule w2) <> r_dets (w_rule w2').
@@ -73,7 +47,7 @@ Proof.
 Qed.
 
 (* ------------------------------------------------------------------------------------- *)
-(* the step theorem: on the domain tracking_safe /\ no_one_to_many the model's step is the
+(* the step theorem: on the domain tracking_safe the model's step is the
    specification's step *)
 Definition st_eq (a b : pstate) : Prop := p_state a = p_state b.
 
@@ -227,34 +201,24 @@ Section Step.
     sp_leaf it T ps0 d = obind (applies_item it T ps0 d) (fun b => if negb b then Ok (DLeaf d) else sp_rename d).
   Proof. unfold sp_leaf, sp_rename. destruct (i_tr it); try discriminate; reflexivity. Qed.
 
-  Lemma one_to_one f m :
-    no_one_to_many it = true -> apply_field_name (i_tr it) f = Some m -> exists t, m = MOne t.
-  Proof.
-    unfold no_one_to_many, apply_field_name. destruct (i_tr it) as [| | | |s|s|mp]; destruct f as [x|]; try discriminate;
-      intros Hn H; try (inversion H; eauto; fail).
-    apply assoc_in in H. rewrite forallb_forall in Hn. specialize (Hn _ H). simpl in Hn.
-    destruct m; [eauto | discriminate].
-  Qed.
-
   Lemma rename_item_spec d ps res ps' :
-    no_fapplied (i_field it) -> no_one_to_many it = true -> st_eq ps ps0 ->
+    no_fapplied (i_field it) -> st_eq ps ps0 ->
     rename_item it ps d = Ok (res, ps') ->
     st_eq ps' ps0 /\ sp_rename d = Ok (match res with Some t => t | None => DLeaf d end).
   Proof.
-    intros Hn H1 Hs. unfold rename_item, sp_rename.
+    intros Hn Hs. unfold rename_item, sp_rename.
     destruct (map_refs it ps (d_vals d)) as [[[nv refm] ps1]| |] eqn:E; try discriminate. simpl.
     destruct (map_refs_spec Hn (d_vals d) ps nv refm ps1 Hs E) as [Hs1 [vs' [S [Sc Se]]]].
     rewrite S. simpl. rewrite Sc, Se. unfold rename_of.
     destruct (apply_field_name (i_tr it) (d_field d)) as [m|] eqn:Ea.
-    - destruct (one_to_one _ _ H1 Ea) as [t ->].
-      destruct (match_field_name it ps1 (d_field d)) as [b| |] eqn:Em; try discriminate. simpl.
+    - destruct (match_field_name it ps1 (d_field d)) as [b| |] eqn:Em; try discriminate. simpl.
       rewrite (mfn_spec ps1 (d_field d) b Hn Hs1 Em). simpl.
-      destruct b; intros H; injection H as Hr Hp; subst res ps'; (split; [exact Hs1|]); destruct refm; reflexivity.
+      destruct b; [destruct m as [t|l]|]; intros H; injection H as Hr Hp; subst res ps'; (split; [exact Hs1|]);
+        destruct refm; reflexivity.
     - simpl. intros H; injection H as Hr Hp; subst res ps'. split; [exact Hs1|]. destruct refm; reflexivity.
   Qed.
 
   Hypothesis Hdom : is_renaming (i_tr it) = true -> no_fapplied (i_field it).
-  Hypothesis H1n : no_one_to_many it = true.
   Hypothesis Hitem : is_item_transf (i_tr it) = true.
 
   Lemma leaf_spec d ps t' ps' :
@@ -269,7 +233,7 @@ Section Step.
       unfold transform_item in Et.
       destruct (is_renaming (i_tr it)) eqn:Er.
       + assert (Et' : rename_item it ps d = Ok (res, ps')) by (destruct (i_tr it); try discriminate; exact Et).
-        destruct (rename_item_spec d ps res ps' (Hdom eq_refl) H1n Hs Et') as [Hs1 S].
+        destruct (rename_item_spec d ps res ps' (Hdom eq_refl) Hs Et') as [Hs1 S].
         split; [exact Hs1|]. rewrite sp_leaf_renaming by exact Er. rewrite Sa. simpl. exact S.
       + unfold sp_leaf. rewrite Sa. simpl.
         destruct (i_tr it) as [| | |v| | |] eqn:Etr; try discriminate.
@@ -344,11 +308,11 @@ Qed.
 
 Theorem step_meets_spec it T w w' b :
   wf_ngroup (i_rule it) -> wf_ngroup (i_det it) -> wf_ngroup (i_field it) ->
-  tracking_safe it = true -> no_one_to_many it = true ->
+  tracking_safe it = true ->
   step it w = Ok (w', b) ->
   exists ws T', sp_step it T w = Ok (ws, b, T') /\ same_obs ws w'.
 Proof.
-  intros Hwr Hwd Hwf Hts H1n Hst.
+  intros Hwr Hwd Hwf Hts Hst.
   apply step_inv in Hst. destruct Hst as [Hg Ht].
   apply (rule_gate it w b Hwr) in Hg. unfold sp_step. rewrite Hg. simpl.
   destruct b; simpl.
@@ -361,7 +325,7 @@ Proof.
   - destruct (apply_dets it (w_ps w) (r_dets (w_rule w))) as [[ds ps']| |] eqn:E; try discriminate.
     simpl in Ht. inversion Ht; subst.
     assert (Hi : is_item_transf (i_tr it) = true) by (rewrite Etr; reflexivity).
-    destruct (dets_spec it T (w_ps w) Hwd Hwf (dom_of_safe it Hts) H1n Hi (r_dets (w_rule w)) (w_ps w) ds ps' eq_refl E) as [Hs S].
+    destruct (dets_spec it T (w_ps w) Hwd Hwf (dom_of_safe it Hts) Hi (r_dets (w_rule w)) (w_ps w) ds ps' eq_refl E) as [Hs S].
     simpl. rewrite S. simpl. eexists _, T. split; [reflexivity|]. split; [reflexivity|]. simpl. symmetry. exact Hs.
   - destruct (map_fields it (w_ps w) (r_fields (w_rule w))) as [[fl ps1]| |] eqn:Ef; try discriminate. simpl in Ht.
     destruct (apply_dets it ps1 (r_dets (w_rule w))) as [[ds ps']| |] eqn:E; try discriminate.
@@ -369,7 +333,7 @@ Proof.
     assert (Hr : is_renaming (i_tr it) = true) by (rewrite Etr; reflexivity).
     assert (Hi : is_item_transf (i_tr it) = true) by (rewrite Etr; reflexivity).
     destruct (map_fields_spec it T (w_ps w) Hwf (dom_of_safe it Hts Hr) (r_fields (w_rule w)) (w_ps w) fl ps1 eq_refl Ef) as [Hs1 S1].
-    destruct (dets_spec it T (w_ps w) Hwd Hwf (dom_of_safe it Hts) H1n Hi (r_dets (w_rule w)) ps1 ds ps' Hs1 E) as [Hs S].
+    destruct (dets_spec it T (w_ps w) Hwd Hwf (dom_of_safe it Hts) Hi (r_dets (w_rule w)) ps1 ds ps' Hs1 E) as [Hs S].
     simpl. rewrite S1. simpl. rewrite S. simpl.
     eexists _, _. split; [reflexivity|]. split; [reflexivity|]. simpl. symmetry. exact Hs.
   - destruct (map_fields it (w_ps w) (r_fields (w_rule w))) as [[fl ps1]| |] eqn:Ef; try discriminate. simpl in Ht.
@@ -378,7 +342,7 @@ Proof.
     assert (Hr : is_renaming (i_tr it) = true) by (rewrite Etr; reflexivity).
     assert (Hi : is_item_transf (i_tr it) = true) by (rewrite Etr; reflexivity).
     destruct (map_fields_spec it T (w_ps w) Hwf (dom_of_safe it Hts Hr) (r_fields (w_rule w)) (w_ps w) fl ps1 eq_refl Ef) as [Hs1 S1].
-    destruct (dets_spec it T (w_ps w) Hwd Hwf (dom_of_safe it Hts) H1n Hi (r_dets (w_rule w)) ps1 ds ps' Hs1 E) as [Hs S].
+    destruct (dets_spec it T (w_ps w) Hwd Hwf (dom_of_safe it Hts) Hi (r_dets (w_rule w)) ps1 ds ps' Hs1 E) as [Hs S].
     simpl. rewrite S1. simpl. rewrite S. simpl.
     eexists _, _. split; [reflexivity|]. split; [reflexivity|]. simpl. symmetry. exact Hs.
   - destruct (map_fields it (w_ps w) (r_fields (w_rule w))) as [[fl ps1]| |] eqn:Ef; try discriminate. simpl in Ht.
@@ -387,7 +351,7 @@ Proof.
     assert (Hr : is_renaming (i_tr it) = true) by (rewrite Etr; reflexivity).
     assert (Hi : is_item_transf (i_tr it) = true) by (rewrite Etr; reflexivity).
     destruct (map_fields_spec it T (w_ps w) Hwf (dom_of_safe it Hts Hr) (r_fields (w_rule w)) (w_ps w) fl ps1 eq_refl Ef) as [Hs1 S1].
-    destruct (dets_spec it T (w_ps w) Hwd Hwf (dom_of_safe it Hts) H1n Hi (r_dets (w_rule w)) ps1 ds ps' Hs1 E) as [Hs S].
+    destruct (dets_spec it T (w_ps w) Hwd Hwf (dom_of_safe it Hts) Hi (r_dets (w_rule w)) ps1 ds ps' Hs1 E) as [Hs S].
     simpl. rewrite S1. simpl. rewrite S. simpl.
     eexists _, _. split; [reflexivity|]. split; [reflexivity|]. simpl. symmetry. exact Hs.
 Qed.
